@@ -5,6 +5,17 @@
          power(h,a) = pow[a] (a < len) else dflt; proposer(h,r) = prop[r euclid-mod len]
      in <input> | <actions of the implementation>     -> "<fuel exhausted 0/1> <height> <model actions>"
          input  = start r | prop h r from vr val | pv h r from id | pc h r from id | to k h r
+                | sync h r from vr val ; h r from id ; h r from id ...     (ProcessSync: proposal ; precommits)
+         the implementation's actions of a sync call are split into the inner calls' lists by the model's
+         inner lengths (Model.call_impl_events) before they go to the monitor
+     walnew     -> (no reply) a second model state machine (the replay instance) at init_state h0
+     wal <entry> | <actions of the replay implementation>  -> like "in", for ProcessWAL on the replay instance
+         entry  = ws:h | wp:h,r,from,vr,val | wv:h,r,from,id | wc:h,r,from,id | wt:k,h,r
+     wdump <probe ids>  -> like dump, for the replay instance
+     walcmp     -> "<wal_disciplined of the live inputs 0/1> <st_sim_b replayed live 0/1> <acts_eqb replay live 0/1>
+                    <replay calls disciplined 0/1> <failure codes of the replay's events csv|-> <no_double_vote 0/1>
+                    <wal_replay_same of the live inputs, from the model alone 0/1>
+                    <which clause the first undisciplined live input broke|->"
      audit      -> "<disciplined 0/1> <failure codes csv|-> <no_double_vote 0/1>"   (on the implementation's events)
      fq <hex N> -> "<hex f> <hex q>"
      agree h:id,h:id,...  -> "0/1"
@@ -37,6 +48,18 @@ let parse_input (ws : string list) : input = match ws with
   | "pc" :: rest -> IPrecommit (vote_of rest)
   | ["to"; k; h; r] -> ITimeout (phase_of k, ni h, zi r)
   | _ -> failwith ("input: " ^ String.concat " " ws)
+
+let rec split_semi acc cur = function
+  | [] -> List.rev (List.rev cur :: acc)
+  | ";" :: r -> split_semi (List.rev cur :: acc) [] r
+  | x :: r -> split_semi acc (x :: cur) r
+
+let parse_call (ws : string list) : call = match ws with
+  | "sync" :: rest ->
+      (match split_semi [] [] rest with
+       | p :: pcs -> KSync (prop_of p, List.map vote_of (List.filter (fun l -> l <> []) pcs))
+       | [] -> failwith "sync")
+  | _ -> KIn (parse_input ws)
 
 let parse_action (s : string) : action =
   match String.split_on_char ':' s with
@@ -116,11 +139,32 @@ let dump_state (c : cfg) (s : state) (probe : n option list) : string =
   " # " ^ String.concat " " (List.map (fun (h, m) -> "F" ^ string_of_int h ^ "(" ^ srm m ^ ")") fut) ^
   " # " ^ String.concat " " cnt
 
+let parse_entry (s : string) : wentry =
+  match wal_of_action (parse_action s) with
+  | [e] -> e
+  | _ -> failwith ("wal entry: " ^ s)
+
 let cfg_ref : cfg option ref = ref None
 let st_ref : state option ref = ref None
 let h0_ref = ref 0
 let evs : event list ref = ref []      (* implementation's events, newest first *)
 let disc = ref true
+let ins_rev : input list ref = ref []  (* the live inner inputs (Process{Start,Proposal,Prevote,Precommit,Timeout}), newest first *)
+let wdisc = ref true                   (* wal_ok_input held for every live inner input *)
+let wfirst = ref "-"                   (* kind of the first live inner input that broke the log discipline *)
+let acts_rev : action list ref = ref []   (* the live model's actions, newest first *)
+(* the replay instance *)
+let rp_ref : state option ref = ref None
+let rp_evs : event list ref = ref []
+let rp_disc = ref true
+let rp_acts_rev : action list ref = ref []
+
+let split_bar rest =
+  let rec split acc = function
+    | "|" :: r -> (List.rev acc, r)
+    | x :: r -> split (x :: acc) r
+    | [] -> (List.rev acc, []) in
+  split [] rest
 
 let ints s = Array.of_list (List.map int_of_string (csv s))
 
@@ -136,21 +180,60 @@ let () =
         cfg_ref := Some (mk_cfg (int_of_string self) !h0_ref (int_of_string m)
                            (List.map int_of_string (csv invalid)) (ints values) (int_of_string dflt) bl);
         st_ref := Some (init_state (n_of_int !h0_ref));
-        evs := []; disc := true
+        evs := []; disc := true; ins_rev := []; wdisc := true; wfirst := "-"; acts_rev := [];
+        rp_ref := None; rp_evs := []; rp_disc := true; rp_acts_rev := []
     | "in" :: rest ->
-        let rec split acc = function
-          | "|" :: r -> (List.rev acc, r)
-          | x :: r -> split (x :: acc) r
-          | [] -> (List.rev acc, []) in
-        let (iw, aw) = split [] rest in
+        let (iw, aw) = split_bar rest in
         let c = Option.get !cfg_ref and s = Option.get !st_ref in
-        let i = parse_input iw in
-        if not (ok_input s i) then disc := false;
-        let ((s', acts), ex) = step_x c s i in
+        let x = parse_call iw in
+        if not (ok_call s x) then disc := false;
+        (* the log discipline, inner call by inner call *)
+        ignore (List.fold_left (fun st i ->
+          if not (wal_ok_input c st i) then begin
+            if !wdisc then wfirst := (match i with
+              | IStart _ -> "start-round-not-0"
+              | IProposal _ | IPrevote _ -> "message-before-start"
+              | IPrecommit _ -> if st.s_started then "precommit-takes-trigger-sync-path" else "message-before-start"
+              | ITimeout _ -> if st.s_started then "stale-timeout-with-rule-pending" else "timeout-before-start");
+            wdisc := false
+          end;
+          ins_rev := i :: !ins_rev;
+          fst (step c st i)) s (call_inputs x));
+        let ((s', acts), ex) = call_step_x c s x in
         st_ref := Some s';
-        evs := (i, List.map parse_action aw) :: !evs;
+        acts_rev := List.rev_append acts !acts_rev;
+        evs := List.rev_append (call_impl_events c s x (List.map parse_action aw)) !evs;
         print_endline ((if ex then "1 " else "0 ") ^ sn s'.s_h ^ " " ^
                        (if acts = [] then "-" else String.concat " " (List.map show_action acts)));
+        flush stdout
+    | ["walnew"] ->
+        rp_ref := Some (init_state (n_of_int !h0_ref)); rp_evs := []; rp_disc := true; rp_acts_rev := []
+    | "wal" :: rest ->
+        let (iw, aw) = split_bar rest in
+        let c = Option.get !cfg_ref and s = Option.get !rp_ref in
+        let e = (match iw with [w] -> parse_entry w | _ -> failwith "wal") in
+        let x = KWal e in
+        if not (ok_call s x) then rp_disc := false;
+        let ((s', acts), ex) = call_step_x c s x in
+        rp_ref := Some s';
+        rp_acts_rev := List.rev_append acts !rp_acts_rev;
+        rp_evs := List.rev_append (call_impl_events c s x (List.map parse_action aw)) !rp_evs;
+        print_endline ((if ex then "1 " else "0 ") ^ sn s'.s_h ^ " " ^
+                       (if acts = [] then "-" else String.concat " " (List.map show_action acts)));
+        flush stdout
+    | ["wdump"; ids] ->
+        let c = Option.get !cfg_ref and s = Option.get !rp_ref in
+        print_endline (dump_state c s (List.map (fun x -> if x = "nil" then None else Some (ni x)) (csv ids))); flush stdout
+    | ["walcmp"] ->
+        let c = Option.get !cfg_ref and live = Option.get !st_ref and rp = Option.get !rp_ref in
+        let b x = if x then "1" else "0" in
+        let e = List.rev !rp_evs in
+        let codes = List.sort_uniq compare (List.map int_of_n (audit c (n_of_int !h0_ref) e)) in
+        print_endline (String.concat " " [
+          b !wdisc; b (st_sim_b rp live); b (acts_eqb (List.rev !rp_acts_rev) (List.rev !acts_rev)); b !rp_disc;
+          (if codes = [] then "-" else String.concat "," (List.map string_of_int codes));
+          b (no_double_vote (all_actions e));
+          b (wal_replay_same c (init_state (n_of_int !h0_ref)) (List.rev !ins_rev)); !wfirst ]);
         flush stdout
     | ["dump"; ids] ->
         let c = Option.get !cfg_ref and s = Option.get !st_ref in
